@@ -27,7 +27,12 @@ import (
 	"verif/sim/plan"
 )
 
-const verifDir = "/verif"
+var verifDir = func() string {
+	if d := os.Getenv("VERIF_DIR"); d != "" {
+		return d
+	}
+	return "/verif"
+}()
 
 type propInfo struct {
 	ID           string   `json:"id"`
@@ -626,7 +631,7 @@ func main() {
 		}
 		rf := plan.ReplayFile{Property: prop, Signature: s, Violation: g.viol, Seed: g.first.Seed, Plan: final, Hash: o1.Hash,
 			Minimised: minimised, Reruns: reruns, ReplayRate: rate, Log: o1.Log,
-			HowTo: fmt.Sprintf("cd /verif && ./check %s --replay <this file>", prop)}
+			HowTo: fmt.Sprintf("cd %s && ./check %s --replay <this file>", verifDir, prop)}
 		if minimised {
 			rf.Original = g.first.Plan
 		}
